@@ -233,24 +233,6 @@ func (p *Prog) verifyFunc(fn *ssa.Function) (u *Unit) {
 		}
 	}
 	u.entry = s.clone()
-	var replayVals [][2]string
-	if u.fc != nil {
-		for _, kv := range u.fc.ReplayKV {
-			env := u.bodyEnv(u.entry, fn)
-			env.paramsEntry = true
-			t, err := env.term(kv[1])
-			if err != nil {
-				panic(abortUnit{fmt.Sprintf("%s:%d: replay term %s: %v", u.fc.File, u.fc.Line, kv[0], err)})
-			}
-			replayVals = append(replayVals, [2]string{kv[0], t.S})
-		}
-		// make sure lazily created entry symbols are reflected in the running state
-		for k, v := range u.entry.heaps {
-			if _, ok := s.heaps[k]; !ok {
-				s.heaps[k] = v
-			}
-		}
-	}
 	rnames := []string{}
 	if u.fc != nil {
 		rnames = u.fc.Results
@@ -284,14 +266,13 @@ func (p *Prog) verifyFunc(fn *ssa.Function) (u *Unit) {
 			if err != nil {
 				panic(abortUnit{fmt.Sprintf("%s:%d: %v", c.File, c.Line, err)})
 			}
-			s3 := s2 // oblige appends to pc; ensures are independent, so work on a copy
-			s3 = &State{pc: append([]string{}, s2.pc...)}
-			u.oblige(s3, labelWithFn(c.Label, u.fnShort(fn)), c.Props, "ensures", g, pos)
+			// oblige appends the goal to pc; ensures are independent, so restore pc afterwards
+			saved := s2.pc
+			s2.pc = append([]string{}, saved...)
+			u.oblige(s2, labelWithFn(c.Label, u.fnShort(fn)), c.Props, "ensures", g, pos)
+			s2.pc = saved
 		}
 	})
-	for _, o := range u.obligs {
-		o.Values = replayVals
-	}
 	return u
 }
 
